@@ -188,6 +188,7 @@ const watchdog = 20 * time.Second
 var hangConfirmed int32
 
 type outcome struct {
+	diag          string
 	hung          string
 	violation     string
 	overlapped    int
@@ -418,7 +419,7 @@ func runProgram(p program) outcome {
 		report("after Shutdown returned %d connections are still registered by id and %d by address", a, b)
 	}
 	// every socket the pool held must have been closed by it
-	deadline := time.Now().Add(10 * time.Second)
+	deadline := time.Now().Add(watchdog)
 	for {
 		open := atomic.LoadInt64(&inbound.open)
 		for _, rp := range peers {
@@ -428,7 +429,31 @@ func runProgram(p program) outcome {
 			break
 		}
 		if time.Now().After(deadline) {
-			report("%d peer sockets are still open 10 s after Shutdown returned", open)
+			// a time-based observation: treated like a hang (reported only if the same program shows it again)
+			out.hung = fmt.Sprintf("%d peer sockets are still open %v after Shutdown returned", open, watchdog)
+			// which sockets, and what the pool's goroutines are doing
+			var which []string
+			for i, rp := range append([]*rawPeer{inbound}, peers...) {
+				rp.mu.Lock()
+				for _, c := range rp.conns {
+					one := []byte{0}
+					_ = c.SetReadDeadline(time.Now().Add(time.Millisecond))
+					if _, err := c.Read(one); err != nil && !strings.Contains(err.Error(), "timeout") {
+						continue
+					}
+					which = append(which, fmt.Sprintf("peer[%d] %s<->%s", i-1, c.LocalAddr(), c.RemoteAddr()))
+				}
+				rp.mu.Unlock()
+			}
+			buf := make([]byte, 4<<20)
+			n := runtime.Stack(buf, true)
+			var keep []string
+			for _, g := range strings.Split(string(buf[:n]), "\n\n") {
+				if strings.Contains(g, "daemon/gnet") {
+					keep = append(keep, g)
+				}
+			}
+			out.diag = fmt.Sprintf("open sockets: %v\n%s", which, strings.Join(keep, "\n\n"))
 			break
 		}
 		time.Sleep(2 * time.Millisecond)
@@ -445,6 +470,13 @@ func runProgram(p program) outcome {
 	inbound.mu.Unlock()
 	inbound.wg.Wait()
 	return out
+}
+
+func trimTo(s string, n int) string {
+	if len(s) > n {
+		return s[:n]
+	}
+	return s
 }
 
 func saveProgram(p program) string {
@@ -501,7 +533,7 @@ func TestC32_PoolConcurrency(t *testing.T) {
 				os.Remove(path)
 				t.Skip("watchdog expiry did not reproduce")
 			}
-			t.Fatalf("%s (reproduced %d of 2 further runs); program saved at %s", o.hung, again, path)
+			t.Fatalf("%s (reproduced %d of 2 further runs); program saved at %s\n%s", o.hung, again, path, trimTo(o.diag, 12000))
 		}
 		if strings.HasPrefix(o.violation, "HARNESS:") {
 			os.Remove(path)
